@@ -45,7 +45,9 @@
 (*      variant-leaves-aux-unjustified    ... and a justified state        *)
 (*      several-variants-applicable       (conditional-effects remover)    *)
 (*                                        at most one variant applicable   *)
-(*    and for the goals:                                                   *)
+(*    an auxiliary action (maps back to nothing) never changes one of P's  *)
+(*    fluents (auxiliary-action-changes-original-fluent), and for the      *)
+(*    goals:                                                               *)
 (*      goal-compiled-holds-original-not  Q's goals hold in st => P's do   *)
 (*      goal-original-holds-compiled-unreachable  P's goals hold => Q's    *)
 (*                                        goals hold in some state of      *)
@@ -228,6 +230,9 @@ PerState(c, s) ==
                      /\ (Restrict(c, rq[gq].s) = rp.s \/ Report(c, "variant-successor-differs", gq.a))
                      /\ (Justified(c, rq[gq].s) \/ Report(c, "variant-leaves-aux-unjustified", gq.a))
                 /\ (Corpus[c].comp # "cerm" \/ Cardinality(VA) <= 1 \/ Report(c, "several-variants-applicable", ga.a))
+   /\ \A ga \in Tab[c].auxacts :
+        LET r == Step(RQ(c), ga, s) IN
+        ~r.ok \/ r.unspec \/ Restrict(c, r.s) = sp \/ Report(c, "auxiliary-action-changes-original-fluent", ga.a)
    /\ LET gp == Goal3(RP(c), sp)
           gq == Goal3(RQ(c), s)
       IN IF gp = "?" \/ gq = "?" THEN Zone(c, "goal?")
